@@ -9,7 +9,8 @@ from ..core import Result, Violation
 from ..progmc import driver, jobs as J
 
 P = "C09"
-PLACEMENTS = ["root_body", "root_helper", "kept_body", "kept_helper", "two_loads", "kept_datafn", "same_path_twice", "kept_body_local_import", "kept_body_thread"]
+PLACEMENTS = ["root_body", "root_helper", "kept_body", "kept_helper", "two_loads", "kept_datafn", "same_path_twice", "kept_body_local_import", "kept_body_thread",
+              "loaded_value_to_inner_keep"]
 PRODUCERS = ["datafn", "keepcall", "keepcall_shared_fn", "datafn_in_keep_args"]
 
 
@@ -48,6 +49,11 @@ def make_spec(placement, producer):
     elif placement in ("kept_body", "two_loads", "same_path_twice"):
         body = [load] + ([{"k": "load", "path": "/l/q"}] if two else []) + ([dict(load)] if placement == "same_path_twice" else [])
         funcs.append({"name": "K", "module": "main", "params": [], "body": body})
+        reader_items = [{"k": "keep", "path": "/l/k", "fn": "K", "args": []}]
+    elif placement == "loaded_value_to_inner_keep":
+        # the loaded value is handed, as a run-time argument, to a keep written in the same body
+        funcs.append({"name": "G", "module": "main", "params": [["x", None]], "body": []})
+        funcs.append({"name": "K", "module": "main", "params": [], "body": [load, {"k": "keep", "path": "/l/g", "fn": "G", "args": [{"local": 0}]}]})
         reader_items = [{"k": "keep", "path": "/l/k", "fn": "K", "args": []}]
     elif placement == "kept_datafn":
         funcs.append({"name": "K", "module": "main", "params": [], "datafn": "/l/k", "body": [load]})
